@@ -267,6 +267,9 @@ struct ReaderState {
     executable_content_stack: Vec<(ExecutableContentId, &'static str)>,
     current_executable_content: ExecutableContentId,
     include_paths: Vec<PathBuf>,
+
+    // The qualified name (with namespace prefix, if any) of the element just started.
+    current_qname: Vec<u8>,
 }
 
 impl ReaderState {
@@ -286,6 +289,7 @@ impl ReaderState {
             file: Path::new("Buffer").to_path_buf(),
             content: "".to_string(),
             include_paths: Vec::new(),
+            current_qname: Vec::new(),
         }
     }
 
@@ -1397,15 +1401,56 @@ impl ReaderState {
         self.add_executable_content(Box::new(send_params));
     }
 
+    /// Converts the raw source of an element's content to its text.\
+    /// Content with child elements (e.g. an inline <scxml> document) is returned as it is.
+    /// Pure text gets its CDATA sections unwrapped and its entity references resolved.
+    fn decode_text_content(raw: &str) -> String {
+        const CDATA_START: &str = "<![CDATA[";
+        const CDATA_END: &str = "]]>";
+        let mut text = String::with_capacity(raw.len());
+        let mut rest = raw;
+        loop {
+            let (plain, cdata_and_rest) = match rest.find(CDATA_START) {
+                Some(idx) => (&rest[..idx], Some(&rest[idx + CDATA_START.len()..])),
+                None => (rest, None),
+            };
+            if plain.contains('<') {
+                // Markup inside, not a text.
+                return raw.to_string();
+            }
+            match quick_xml::escape::unescape(plain) {
+                Ok(unescaped) => text.push_str(&unescaped),
+                Err(_) => return raw.to_string(),
+            }
+            match cdata_and_rest {
+                None => break,
+                Some(cr) => match cr.find(CDATA_END) {
+                    Some(end_idx) => {
+                        text.push_str(&cr[..end_idx]);
+                        rest = &cr[end_idx + CDATA_END.len()..];
+                    }
+                    None => return raw.to_string(),
+                },
+            }
+        }
+        text
+    }
+
     /// Reads the content until an end-tag is encountered.
     fn read_content(&mut self, tag: &str, reader: &mut XReader) -> String {
-        let start = BytesStart::new(tag.to_string());
+        // The end tag carries the same (possibly prefixed) name as the start tag.
+        let qname = if self.current_qname.is_empty() {
+            tag.as_bytes().to_vec()
+        } else {
+            self.current_qname.clone()
+        };
+        let start = BytesStart::new(String::from_utf8_lossy(&qname).to_string());
         let end = start.to_end().into_owned();
 
         let mut buf = Vec::new();
         let content = match reader.read_to_end_into(end.name(), &mut buf) {
             Ok(span) => {
-                let r = self.content[(span.start as usize)..(span.end as usize)]
+                let r = Self::decode_text_content(&self.content[(span.start as usize)..(span.end as usize)])
                     .trim()
                     .to_string();
                 #[cfg(feature = "Debug_Reader")]
@@ -1702,6 +1747,7 @@ impl ReaderState {
         let n = e.local_name();
         let name = str::from_utf8(n.as_ref()).unwrap();
         self.push(name);
+        self.current_qname = e.name().as_ref().to_vec();
 
         #[cfg(feature = "Debug_Reader")]
         debug!("Start Element {}", name);
